@@ -2,24 +2,27 @@
 // `go test -overlay`; not part of the repository. One result line per case line. String
 // arguments are hex ("-" = empty).
 //
-//   get <loc> <tok> <signing 0|1> <ttlNs> <key> <present> <nominalNowNs>
-//        GET /<loc> with "Authorization: Bearer <tok>"        -> <status> [hex(body) if 200]
-//        (<present> is for the model: "absent" or "p"+hex(body) of the stored block)
-//   geturl <rawpath> <none|hdr> <signing 0|1> <ttlNs> <key> <present> <nominalNowNs>
-//        http.NewRequest("GET", "http://keep.example"+rawpath) with the raw Authorization value
-//                                      -> badurl | 301 hex(Location path) | <status> [hex(body)]
-//   getremote <loc> <tok> <remote ids a,b|-> <ttlNs> <key> <rpresent> <nominalNowNs>
-//        BlobSigning on; the listed remote clusters are configured and all resolve to one stub
-//        Keep server (keepclients pre-seeded, so no discovery request is made)
-//                 -> <status> [hex(body)] | <hex forwarded locator> <hex forwarded token> [; …] or "| -"
-//   getnow <loc> <tok> <ttlNs> <key> <present> <nominalNowNs>
-//        BlobSigning on; sign <loc> with keepstore's SignLocator for the whole second that has
-//        already begun (expiry instant strictly in the past), GET it at once with the same token;
-//        repeated until the GET completed within that second
-//                                                             -> <status> [hex(body)] exp t0ns t1ns
-//   put <body> <tok> <tok2> <signing 0|1> <ttlNs> <key> <nominalNowNs>
-//        PUT /md5(body) with tok; then GET the returned locator with tok and with tok2
-//        -> <putStatus> hex(returnedLocator) <getStatusTok> <getStatusTok2> t0 t1
+//	get <loc> <tok> <signing 0|1> <ttlNs> <key> <present> <nominalNowNs>
+//	     GET /<loc> with "Authorization: Bearer <tok>"        -> <status> [hex(body) if 200]
+//	     (<present> is for the model: "absent" or "p"+hex(body) of the stored block)
+//	geturl <rawpath> <none|hdr> <signing 0|1> <ttlNs> <key> <present> <nominalNowNs>
+//	     http.NewRequest("GET", "http://keep.example"+rawpath) with the raw Authorization value
+//	                                   -> badurl | 301 hex(Location path) | <status> [hex(body)]
+//	getremote <loc> <tok> <remote ids a,b|-> <ttlNs> <key> <rpresent> <nominalNowNs> [<mode>]
+//	     mode = what the stub remote does with every request: ok (default: serve what it holds,
+//	     else 404) | a status code | drop (close the connection) | short (200 with a 1-byte body);
+//	     the keepclients have Retries = 2
+//	     BlobSigning on; the listed remote clusters are configured and all resolve to one stub
+//	     Keep server (keepclients pre-seeded, so no discovery request is made)
+//	              -> <status> [hex(body)] | <hex forwarded locator> <hex forwarded token> [; …] or "| -"
+//	getnow <loc> <tok> <ttlNs> <key> <present> <nominalNowNs>
+//	     BlobSigning on; sign <loc> with keepstore's SignLocator for the whole second that has
+//	     already begun (expiry instant strictly in the past), GET it at once with the same token;
+//	     repeated until the GET completed within that second
+//	                                                          -> <status> [hex(body)] exp t0ns t1ns
+//	put <body> <tok> <tok2> <signing 0|1> <ttlNs> <key> <nominalNowNs>
+//	     PUT /md5(body) with tok; then GET the returned locator with tok and with tok2
+//	     -> <putStatus> hex(returnedLocator) <getStatusTok> <getStatusTok2> t0 t1
 package main
 
 import (
@@ -83,7 +86,10 @@ type verifC07Env struct {
 	h          *handler
 	remote     *httptest.Server // stub Keep service of every configured remote cluster
 	remoteSeen []string         // "<hex locator> <hex token>" per request it received
+	remoteMode string           // what the stub remote does: ok | <status code> | drop | short
 }
+
+var verifC07NoKeepAlive = &http.Client{Transport: &http.Transport{DisableKeepAlives: true}}
 
 // Blocks the stub remote Keep service holds; the generator knows this list.
 var verifC07Remote = []string{"remote-only block", "foo", "another remote block\n"}
@@ -152,9 +158,13 @@ func (e *verifC07Env) run(line string) (out string) {
 			return "301 " + verifC07Enc(u.Path)
 		}
 		return strconv.Itoa(resp.Code)
-	case f[0] == "getremote" && len(f) == 8:
+	case f[0] == "getremote" && (len(f) == 8 || len(f) == 9):
 		// remote-proxy exit: the configured remote clusters all resolve to one stub Keep server
 		e.config("1", verifC07Int(f[4]), verifC07Hex(f[5]))
+		e.remoteMode = "ok"
+		if len(f) == 9 {
+			e.remoteMode = f[8]
+		}
 		e.cluster.RemoteClusters = map[string]arvados.RemoteCluster{}
 		clients := map[string]*keepclient.KeepClient{}
 		if f[3] != "-" {
@@ -163,7 +173,11 @@ func (e *verifC07Env) run(line string) (out string) {
 				kc := &keepclient.KeepClient{
 					Arvados:       &arvadosclient.ArvadosClient{ApiServer: "localhost:9", ApiToken: "xxx"},
 					Want_replicas: 1,
-					HTTPClient:    http.DefaultClient,
+					Retries:       2,
+					// no connection reuse: net/http silently repeats a GET whose reused
+					// connection was closed, which would make the request count of the
+					// "drop" mode depend on timing
+					HTTPClient: verifC07NoKeepAlive,
 				}
 				kc.SetServiceRoots(map[string]string{id + "-bi6l4-000000000000000": e.remote.URL}, nil, nil)
 				clients[id] = kc
@@ -268,6 +282,25 @@ func TestVerifC07(t *testing.T) {
 	env.remote = httptest.NewServer(http.HandlerFunc(func(w http.ResponseWriter, r *http.Request) {
 		loc := strings.TrimPrefix(r.URL.Path, "/")
 		env.remoteSeen = append(env.remoteSeen, verifC07Enc(loc)+" "+verifC07Enc(strings.TrimPrefix(r.Header.Get("Authorization"), "OAuth2 ")))
+		switch mode := env.remoteMode; {
+		case mode == "drop":
+			// fault: the connection is closed without an answer
+			if hj, ok := w.(http.Hijacker); ok {
+				if conn, _, err := hj.Hijack(); err == nil {
+					conn.Close()
+					return
+				}
+			}
+			panic(http.ErrAbortHandler)
+		case mode == "short":
+			w.Header().Set("Content-Length", "1")
+			w.Write([]byte("x"))
+			return
+		case mode != "ok" && mode != "":
+			code, _ := strconv.Atoi(mode)
+			http.Error(w, "stub remote fault", code)
+			return
+		}
 		for _, b := range verifC07Remote {
 			if strings.HasPrefix(loc, fmt.Sprintf("%x", md5.Sum([]byte(b)))) {
 				w.Header().Set("Content-Length", strconv.Itoa(len(b)))
